@@ -684,6 +684,11 @@ def reduce_dim(f, reducedef, fuzzydim=True, metakeys=_metakeys):
         for k in var.ncattrs():
             setattr(nvar, k, getattr(var, k))
 
+    if dimkey not in outf.dimensions:
+        # no variable uses the dimension: it is reduced to length 1 all the same
+        outdim = outf.createDimension(dimkey, 1)
+        outdim.setunlimited(inf.dimensions[dimkey].isunlimited())
+
     history = getattr(outf, 'history', '')
     history += historydef
     setattr(outf, 'history', history)
